@@ -7,6 +7,7 @@ import (
 	"net"
 
 	"hop.computer/hop/authgrants"
+	"hop.computer/hop/authkeys"
 	"hop.computer/hop/keys"
 	"hop.computer/hop/transport"
 	"hop.computer/hop/tubes"
@@ -49,5 +50,9 @@ func verifListen(addr string) (any, error) {
 	}
 	return net.ListenPacket("udp", addr)
 }
+
+// VerifKeyStore returns the set of trusted keys the server handed to its transport layer (nil if the
+// configuration enables neither authorized keys nor authorization grants).
+func (s *HopServer) VerifKeyStore() *authkeys.SyncAuthKeySet { return s.keyStore }
 
 var _ = authgrants.Shell
